@@ -55,6 +55,14 @@ Theorem serialize_concurrent_equals_sequential :
 Proof. exact serialize_lemma. Qed.
 Print Assumptions serialize_concurrent_equals_sequential.
 
+(* temp-file registry: whatever the interleaving of deferDeleteTempFile and cleanupTempFiles calls, a
+   file that was ever registered is either still registered (the cleanup on exit removes it) or no
+   longer on disk: a registration is never lost *)
+Theorem registry_never_loses_a_file : forall disk0 th0 log s,
+  reg_init th0 -> aexec (ainit ([], disk0, []) th0) log s -> a_hold s = None -> reg_safe (a_sh s).
+Proof. exact registry_lemma. Qed.
+Print Assumptions registry_never_loses_a_file.
+
 (* sync.Once around computeBase: the body runs exactly once and every caller that has returned
    reads the value computed by that one run *)
 Theorem once_computes_once : forall (A V : Type) (f : A -> V) (addr : nat -> A) th0 log s,
